@@ -18,6 +18,7 @@ import os
 import random
 import re
 import shutil as _shutil
+import subprocess as _subprocess
 import sys
 
 import numpy as np
@@ -164,6 +165,7 @@ class Sim:
         self.n_launches = 0
         self.launch_cap = None
         self.dyn_rmtree = 0  # crash at the k-th entry removed by rmtree after the first crash (0 = off)
+        self.delivery = []  # per crash: kill | nonzero-exit | ctrl-c
         self._rm_seen = 0
 
     def tick(self, kind):
@@ -252,8 +254,17 @@ class GlobProxy:
 
 
 class SubprocessProxy:
+    """The script's view of `subprocess`.  An interruption that hits while the pipeline run is in flight reaches the
+    script in one of three ways, decided per crash by the fault stream: the whole process group is killed (nothing of
+    the script runs any more), the launcher exits non-zero (the script sees CalledProcessError and its own handlers,
+    if any, run -- under the same proxies, so they are observed and can be interrupted in turn), or the operator
+    presses Ctrl-C (KeyboardInterrupt)."""
+
     def __init__(self, sim):
         self._sim = sim
+
+    def __getattr__(self, name):
+        return getattr(_subprocess, name)
 
     def check_call(self, cmd, cwd=None, **kw):
         sim = self._sim
@@ -261,7 +272,24 @@ class SubprocessProxy:
         if sim.launch_cap is not None and sim.n_launches > sim.launch_cap:
             raise SimLivelock(f"{sim.n_launches} workflow launches")
         sim.tick("launch")
-        run_workflow(sim, cmd)
+        try:
+            run_workflow(sim, cmd)
+        except SimCrash:
+            mode = sim.delivery[(sim.crashes_fired - 1) % len(sim.delivery)] if sim.delivery else "kill"
+            sim.stats.fault("crash-delivery." + mode)
+            sim.log.ev("delivery", mode)
+            if mode == "nonzero-exit":
+                raise _subprocess.CalledProcessError(1, cmd)
+            if mode == "ctrl-c":
+                raise KeyboardInterrupt()
+            raise
+        return 0
+
+    def run(self, cmd, *a, **kw):
+        self.check_call(cmd)
+        return _subprocess.CompletedProcess(cmd, 0)
+
+    call = check_call
 
 
 # ================================================================== workflow stub
@@ -729,7 +757,8 @@ def drive(sim, plan, max_restarts, sessions=1):
         except SimLivelock as e:
             stuck = ("livelock", str(e))
             break
-        except SimCrash:
+        except (SimCrash, _subprocess.CalledProcessError, KeyboardInterrupt):
+            # (the last two: the interruption was delivered to the script, whose handlers -- if any -- have run; it then died)
             shape = tree_shape(sim.root)
             anomalies.append(anomaly_class(shape))
             sim.log.ev("tree", shape)
@@ -770,6 +799,7 @@ def gen_plan(prop, run_seed, tier):
                 seed=s.randrange(2**31), real=(f.random() < (0.01 if tier == "quick" else 0.02)),
                 n_crashes=f.choice([1, 1, 2] if tier == "quick" else [1, 2, 2, 3]), crash_u=[f.random() for _ in range(3)],
                 crash_bias=f.choice(["uniform", "uniform", "after-step", "inside-makedirs", "inside-rmtree", "between-publish"]),
+                crash_delivery=[f.choice(["kill", "kill", "nonzero-exit", "ctrl-c"]) for _ in range(3)],
                 reorder=(tier == "thorough" and f.random() < 0.25), enumerate_single=(tier == "thorough" and f.random() < 0.05),
                 dyn_rmtree=(f.randint(1, 8) if f.random() < 0.3 else 0))
     return normalise(plan)
@@ -873,6 +903,7 @@ def execute(prop, plan):
             budget = len(ref_order) + len(ticks) + 3 + 3 * (len(ticks) + 1)  # + advised deletions
             sim.launch_cap = 2 * len(ref_order) + 2 * len(ticks) + 6
             sim.dyn_rmtree = plan.get("dyn_rmtree", 0)
+            sim.delivery = list(plan.get("crash_delivery", []))
             res = drive(sim, plan, max_restarts=budget, sessions=1)
             _judge(plan, sim, res, reference, ref_order, census, ticks, stats, violation)
             if viol:
